@@ -6,7 +6,7 @@
 From Coq Require Import String Ascii.
 From Coq Require Import List NArith ZArith Bool.
 Import ListNotations.
-From TarpcV Require Import Base Schema Wire WireProofs Framing FramingProofs Shipped ShippedProofs.
+From TarpcV Require Import Base Schema Wire WireProofs JsonText JsonTextProofs Framing FramingProofs Shipped ShippedProofs.
 
 (* ---- MAIN THEOREM: the monitor accepts every run of the model ----
    For every configuration (codec or channel, every list of read-chunk sizes, every cut position)
@@ -51,8 +51,8 @@ Theorem C15_bincode_roundtrip_response : forall r, resp_wf r ->
   exists bs, resp_bincode r = Some bs /\ resp_of_bincode bs = Some (degrade_resp r).
 Proof. exact bincode_roundtrip_resp. Qed.
 
-(* serde_json at the level of value trees (the text layer is third-party and only
-   differentially tested): every ClientMessage, including one whose deadline is omitted *)
+(* serde_json at the level of value trees (the text layer follows below): every ClientMessage,
+   including one whose deadline is omitted *)
 Theorem C15_json_tree_roundtrip : forall m, cm_wf m ->
   exists j, cm_json m = Some j /\ cm_of_json j = Some m.
 Proof. exact json_tree_roundtrip_cm. Qed.
@@ -60,6 +60,55 @@ Proof. exact json_tree_roundtrip_cm. Qed.
 Theorem C15_json_tree_roundtrip_response : forall r, resp_wf r ->
   exists j, resp_json r = Some j /\ resp_of_json j = Some (degrade_resp r).
 Proof. exact json_tree_roundtrip_resp. Qed.
+
+(* ---- serde_json's TEXT layer (JsonText.v: compact printer, total parser for the JSON subset
+   tarpc's messages live in) ---- *)
+
+(* parse (print j) = Some j for every tree whose strings are byte lists *)
+Theorem C15_json_text_roundtrip : forall j, json_wf j = true -> json_parse (json_print j) = Some j.
+Proof. exact json_text_roundtrip. Qed.
+
+(* ... also with ANY whitespace string inserted at every token boundary and around the value *)
+Theorem C15_json_text_roundtrip_ws : forall sp j, all_ws sp = true -> json_wf j = true ->
+  json_parse (json_text_sp sp j) = Some j.
+Proof. exact json_text_roundtrip_ws. Qed.
+
+(* composed with the tree level: decode_text (encode_text m) = Some m for every ClientMessage
+   (deadline present or omitted) and every Response (up to the kind degradation) *)
+Theorem C15_json_text_roundtrip_message : forall m, cm_wf m ->
+  exists t, cm_json_text m = Some t /\ cm_of_json_text t = Some m.
+Proof. exact json_text_roundtrip_cm. Qed.
+
+Theorem C15_json_text_roundtrip_response : forall r, resp_wf r ->
+  exists t, resp_json_text r = Some t /\ resp_of_json_text t = Some (degrade_resp r).
+Proof. exact json_text_roundtrip_resp. Qed.
+
+Theorem C15_json_text_roundtrip_message_ws : forall sp m, all_ws sp = true -> cm_wf m ->
+  exists j, cm_json m = Some j /\ cm_of_json_text (json_text_sp sp j) = Some m.
+Proof. exact json_text_roundtrip_cm_ws. Qed.
+
+Theorem C15_json_text_roundtrip_response_ws : forall sp r, all_ws sp = true -> resp_wf r ->
+  exists j, resp_json r = Some j /\ resp_of_json_text (json_text_sp sp j) = Some (degrade_resp r).
+Proof. exact json_text_roundtrip_resp_ws. Qed.
+
+(* a Cancel written as TEXT without its trace_context, any whitespace *)
+Theorem C15_json_text_cancel_no_trace : forall sp id, all_ws sp = true -> (id < u64_max1)%N ->
+  cm_of_json_text (json_text_sp sp
+     (JObj [("Cancel"%string, JObj [("request_id"%string, JNum (Z.of_N id))])]))
+  = Some (CCancel default_trace id).
+Proof. exact json_text_cancel_no_trace. Qed.
+
+(* the parser rejects what is outside the grammar: 01, -0, 1.5, [1,], a lone surrogate, trailing
+   garbage, a raw control character inside a string *)
+Theorem C15_json_parse_rejects :
+  json_parse [48; 49]%N = None /\
+  json_parse [45; 48]%N = None /\
+  json_parse [49; 46; 53]%N = None /\
+  json_parse [91; 49; 44; 93]%N = None /\
+  json_parse [34; 92; 117; 100; 56; 48; 48; 34]%N = None /\
+  json_parse [123; 125; 32; 120]%N = None /\
+  json_parse [34; 1; 34]%N = None.
+Proof. exact json_parse_rejects. Qed.
 
 (* both round trips hold for ANY shape that satisfies the generated side condition schema_wf *)
 Theorem C15_bincode_roundtrip_schema : forall s, schema_wf s = true ->
@@ -190,6 +239,14 @@ Print Assumptions C15_bincode_roundtrip.
 Print Assumptions C15_bincode_roundtrip_response.
 Print Assumptions C15_json_tree_roundtrip.
 Print Assumptions C15_json_tree_roundtrip_response.
+Print Assumptions C15_json_text_roundtrip.
+Print Assumptions C15_json_text_roundtrip_ws.
+Print Assumptions C15_json_text_roundtrip_message.
+Print Assumptions C15_json_text_roundtrip_response.
+Print Assumptions C15_json_text_roundtrip_message_ws.
+Print Assumptions C15_json_text_roundtrip_response_ws.
+Print Assumptions C15_json_text_cancel_no_trace.
+Print Assumptions C15_json_parse_rejects.
 Print Assumptions C15_bincode_roundtrip_schema.
 Print Assumptions C15_json_tree_roundtrip_schema.
 Print Assumptions C15_kinds_degrade.
